@@ -10,9 +10,9 @@ CONSTANTS
   LEpochs = {1, 2}
   Leaders = {1, 2}
   ReplicaSets = {{1, 2, 3}}
-  ISRs = {{1}, {1, 2}, {1, 2, 3}}
+  ISRs = {{1}, {1, 2, 3}}
   MinISRs = {1, 2}
-  Statuses = {"active", "deleted"}
+  Statuses = {"active", "deleting", "deleted"}
   Modes = {"quorum", "local", "default"}
   Counts = {1, 2}
   Gens = {1, 2}
@@ -20,3 +20,5 @@ VIEW View
 INVARIANTS TypeOK C06_Order
 PROPERTIES C06_HWMonotone C06_QuorumReply C06_ReplyOnce C06_StaleFence C06_StaleMeta C06_AckGuard
 CHECK_DEADLOCK FALSE
+\* measured: 501,764 distinct / 48,292,729 generated states, depth 15 (23 min with 8 workers at load ~65;
+\* about 5 min on an idle machine).  With ISRs = {{1},{1,2},{1,2,3}}: ~1.17 M distinct / 140 M generated.
